@@ -73,6 +73,15 @@ pub mod dom {
         DocumentFragment, Notation,
     }
 
+    impl Clone for NodeType {
+        #[verifier::external_body]
+        fn clone(&self) -> (r: Self)
+            ensures r == *self,
+        {
+            unimplemented!()
+        }
+    }
+
     pub type ExpandedName = (String, Option<String>, Option<String>);
 
     // DOM nodeType / nodeName of a node: uninterpreted (namespace nodes answer Attribute in this library)
@@ -459,6 +468,9 @@ fn less_eq_value(a: &model::Value, b: &model::Value) -> (r: error::Result<bool>)
 fn less_than_value(a: &model::Value, b: &model::Value) -> (r: error::Result<bool>) { unimplemented!() }
 
 // axes (what they return is proved in units/c05_axes.py; nothing about it is needed here)
+// parent(): the parent in the XPath data model (the element of an attribute, else the DOM parent)
+#[verifier::external_body]
+fn parent(node: &dom::XmlNode) -> (r: Option<dom::XmlNode>) { unimplemented!() }
 #[verifier::external_body]
 fn ancestor(node: dom::XmlNode) -> (r: Vec<dom::XmlNode>) { unimplemented!() }
 #[verifier::external_body]
@@ -873,6 +885,7 @@ def build(repo=None):
         FE, None, 'eval_axis_node_test', props=P, safety_props=['C06'], attrs=[NODEC], ensures=[C19],
         rules=[Rule('R25', r'match v\.as_str\(\) \{\s*"@" => attributes\(node\),\s*_ => child\(node\),\s*\}',
                     'if shim_is_at(v) { attributes(node) } else { child(node) }', 'match on a string literal -> if/else over a shim comparing with "@"'),
+               Rule('R25', r'expr::AxisSpecifier::Abbreviated\(v\) if v\.as_str\(\) == "@" =>', 'expr::AxisSpecifier::Abbreviated(v) if shim_is_at(v) =>', 'match guard comparing with the literal "@" -> shim'),
                R_SORT, R_REVERSE, R_ENUM],
         inject=[(r'context\.push_size\(nodes\.len\(\)\);', 'let ghost __src = nodes@;')],
         loops={0: dict(invariant=[('C19:ctx', 'same_ctx(*context, *old(context))')]),
@@ -882,7 +895,8 @@ def build(repo=None):
     fns['eval_node_test'] = Fn(
         FE, None, 'eval_node_test', props=P, safety_props=['C06'], attrs=[NODEC],
         ensures=[C19,
-                 ('C05:star_matches_the_principal_node_types_only', f'test is Name && test->Name_0 is All ==> r is Ok && r->Ok_0 == ({NT} == dom::NodeType::Element || {NT} == dom::NodeType::Attribute)'),
+                 ('C05:star_selects_exactly_the_nodes_of_the_principal_node_type_of_the_axis', f'test is Name && test->Name_0 is All ==> r is Ok && r->Ok_0 == ({NT} == principal)'),
+                 ('C05:no_name_test_selects_a_node_of_another_type_than_the_principal_one', f'test is Name && {NT} != principal ==> r is Ok && !r->Ok_0'),
                  ('C05:node_type_tests_select_by_node_type',
                   f'test is Type ==> r is Ok && r->Ok_0 == (match test->Type_0 {{ expr::NodeType::Comment => {NT} == dom::NodeType::Comment, expr::NodeType::PI => {NT} == dom::NodeType::PI,'
                   f' expr::NodeType::Node => true, expr::NodeType::Text => {NT} == dom::NodeType::Text || {NT} == dom::NodeType::EntityReference || {NT} == dom::NodeType::CData }})'),
@@ -891,6 +905,7 @@ def build(repo=None):
                     'let uri_a = shim_get_ns_uri(context, prefix)?;', 'Context::get_ns_uri (returns a borrow out of &mut self) + ok_or_else closure -> shim returning the URI or NotFoundNamespace'),
                Rule('R26', r'Ok\(Some\(uri_a\) == uri_b\.as_deref\(\)\)', 'Ok(shim_uri_eq(&uri_a, &uri_b))', 'Option<&str> comparison -> shim'),
                Rule('R35', r'node\.node_name\(\) == \*target', 'shim_string_eq_str(&node.node_name(), *target)', 'String == str -> shim'),
+               Rule('R33', r'node\.node_type\(\) != principal', '!shim_is_node_type(&node, principal.clone())', 'PartialEq on the derive(PartialEq) enum NodeType -> shim'),
                R_UNIMPL, R_NODETYPE])
     fns['eval_predicate'] = Fn(
         FE, None, 'eval_predicate', props=P, safety_props=['C06'], attrs=[NODEC],
